@@ -9,11 +9,14 @@
   whatever was removed), the truthfulness theorems for every image in which the
   stream files hold (prefixes of) the source's bytes, which every prefix of a
   truthful operation list with a torn last append preserves
-  (`crash_images_truthful`). The alteration theorems hold for every alteration of a
+  (`crash_images_truthful`) — and the writers' own scripts ARE truthful operation
+  lists (`script_ops_true`), so `crash_bytes_true` is unconditional over scripts,
+  crash instants and torn lengths. The alteration theorems hold for every alteration of a
   closed segment's data or recorded size.
 -/
 import GunYu.Model.StoreFs
 import GunYu.Proofs.StoreFs
+import GunYu.Proofs.StoreFsTrue
 
 namespace GunYu.Props.C08
 open GunYu GunYu.Store GunYu.StoreFs
@@ -92,6 +95,20 @@ theorem snapshot_committed_only_when_complete (s : Disk) (op : DOp) (a b : FName
       r.data.length + chunk.length = r.size ∧ a = rdbTmpName r.left r.size ∧ b = rdbName r.left r.size :=
   rename_only_when_complete s op a b h
 
+/-- **crash_snapshot_complete.** For EVERY writers' script respecting the callers'
+    protocol, at EVERY instant the process may die (`n` file operations issued, the
+    last one — if an append — torn after `k` bytes): a snapshot that the re-opened
+    cache offers is a committed file that holds exactly the announced number of
+    bytes. (`snapshot_committed_only_when_complete` lifted from one step to
+    scripts and crash images; unconditional.) -/
+theorem crash_snapshot_complete (l m : Nat) (ops : List DOp) (hwf : (Disk.init l m).wf ops) (n k L S : Nat) :
+    let img := crashImage [] (scriptOps (Disk.init l m) ops) n k
+    (reopen img).rdb = some (L, S) → ∃ c, img.get (rdbName L S) = some c ∧ c.length = S := by
+  intro img h
+  obtain ⟨⟨content, hmem⟩, _⟩ := tmp_snapshot_not_offered img L S h
+  obtain ⟨c', hget, hmem'⟩ := get_some_of_mem hmem
+  exact ⟨c', hget, crashImage_rdbLenOk l m ops hwf n k _ hmem' L S rfl⟩
+
 /-- **reopen_bytes_true.** If every stream file holds (after its header) bytes of
     the source at the file's offsets, then whatever a reader opened at `off`
     on the re-opened index delivers — with or without verification, however far it
@@ -158,12 +175,44 @@ theorem crash_images_truthful (src : Nat → UInt8) (fs : FS) (h : FsTrue src fs
   unfold crashImage
   exact FsTrue_tornLast h _ (opsTrue_take hops n) k
 
+/-- **script_ops_true.** The hypothesis of `crash_images_truthful` holds for the
+    writers' own scripts: for EVERY script respecting the callers' protocol
+    (`wf`) whose appended chunks are the source's bytes at the offsets they are
+    appended at (`SrcOk`: all that "the callers write what they received" means),
+    every file operation the writers issue — header rewrite, create, append,
+    rename, remove, in the order the code issues them — is truthful at the
+    directory state it is applied to. -/
+theorem script_ops_true (src : Nat → UInt8) (l m : Nat) (ops : List DOp) (hwf : (Disk.init l m).wf ops)
+    (hsrc : SrcOk src (Disk.init l m) ops) :
+    ∀ pre op post, scriptOps (Disk.init l m) ops = pre ++ op :: post → OpTrue src (FS.applyAll [] pre) op :=
+  scriptOps_true ops _ _ (DInv.init l m) hwf (histTrue_init src l m) hsrc (filesOk_init l m [])
+
+/-- **crash_bytes_true.** UNCONDITIONAL over scripts and crash instants: for every
+    script of the writers (as above), at EVERY instant the process may die (`n`
+    file operations issued, the last one — if an append — torn after `k` bytes),
+    whatever a reader opened at `off` on the re-opened cache delivers — with or
+    without verification — is the source's byte at `off + j`, for every `j`. -/
+theorem crash_bytes_true (src : Nat → UInt8) (l m : Nat) (ops : List DOp) (hwf : (Disk.init l m).wf ops)
+    (hsrc : SrcOk src (Disk.init l m) ops) (n k : Nat) (verify : Bool) (off : Nat)
+    (bs : Bytes) (e : ServeEnd)
+    (hs : serve (crashImage [] (scriptOps (Disk.init l m) ops) n k) verify off = some (bs, e)) :
+    ∀ j b, bs[j]? = some b → b = src (off + j) :=
+  reopen_bytes_true src _ (crashImage_true src l m ops hwf hsrc n k) verify off bs e hs
+
 /-- **crc_mismatch_refused.** With verification on, a reader delivers nothing
     from a segment whose content fails the header check … -/
 theorem crc_mismatch_refused (fs : FS) (g : DSeg) (rest : List DSeg) (off : Nat) (file : Bytes)
     (hf : fs.get (aofName g.left) = some file) (hbad : segVerifyOk file = false) :
     serveFrom fs true (g :: rest) off = ([], ServeEnd.corrupt) :=
   serveFrom_refuses fs g rest off file hf hbad
+
+/-- … wherever the failing segment is in the chain a reader follows: nothing at
+    or beyond it is delivered and the reader does not end normally … -/
+theorem corrupt_segment_never_served (fs : FS) (pre : List DSeg) (g : DSeg) (post : List DSeg) (off : Nat)
+    (file : Bytes) (hf : fs.get (aofName g.left) = some file) (hbad : segVerifyOk file = false) :
+    (serveFrom fs true (pre ++ g :: post) off).1.length ≤ (pre.map (·.data.length)).sum ∧
+    (serveFrom fs true (pre ++ g :: post) off).2 ≠ ServeEnd.eof :=
+  serveFrom_stops_at_corrupt fs pre g post off file hf hbad
 
 /-- … a segment closed by the writer passes the check … -/
 theorem closed_segment_verifies (data : Bytes) (h : data.length < 4294967296) :
@@ -207,6 +256,11 @@ theorem altered_size_refused (data : Bytes) (n : Nat) (hn : n ≠ data.length % 
     exact hn (Nat.mod_eq_of_lt hn2).symm
   simp [hne]
 
+/-- an alteration of the recorded checksum alone is always refused -/
+theorem altered_crc_refused (data : Bytes) (c : Nat) (hc : c < 2 ^ 64) (hne : c ≠ crc64 data) :
+    segVerifyOk ((1 :: (leBytes 8 c ++ leBytes 4 (data.length % 4294967296) ++ [0, 0, 0])) ++ data) = false :=
+  segVerifyOk_altered_crc data c hc hne
+
 /-! ### non-vacuity -/
 
 /-- the D15 image: `639.aof` already removed, snapshot and later segments left -/
@@ -236,6 +290,12 @@ example : FsTrue (fun o => UInt8.ofNat o) [(.aof 100, fixHeader ++ [100, 101, 10
   | 1, hb => simp at hb; subst hb; decide
   | 2, hb => simp at hb; subst hb; decide
   | n + 3, hb => simp at hb
+-- a script whose snapshot is committed: the crash image right after the rename offers it, complete;
+-- one operation earlier (before the rename) nothing is offered
+def exScript : List DOp := [.setRunId "id", .newRdbWriter 500 3, .rdbAppend [1, 2], .rdbAppend [3], .newAofWriter 500, .aofAppend [9]]
+example : (Disk.init 32 0).wf exScript := by decide
+example : (reopen (crashImage [] (scriptOps (Disk.init 32 0) exScript) 4 0)).rdb = some (500, 3) := by decide
+example : (reopen (crashImage [] (scriptOps (Disk.init 32 0) exScript) 3 0)).rdb = none := by decide
 -- a closed segment verifies; a flipped data byte does not
 example : segVerifyOk (closedHeader [1, 2, 3] ++ [1, 2, 3]) = true := by decide +kernel
 example : segVerifyOk (closedHeader [1, 2, 3] ++ [1, 2, 7]) = false := by decide +kernel
